@@ -234,6 +234,25 @@ class Check:
                 else:
                     self.broken.append({"kind": "audit", "item": name, "detail": "depends on axioms/section hypotheses: " + ", ".join(ax)})
 
+    def coqchk(self):
+        """thorough tier: independent re-check of the compiled theorems and everything they depend on"""
+        if self.tier != "thorough" or not self.proofs_ok:
+            return
+        rc, out, dt = sh(["coqchk", "-Q", COQ, "RV", "-o", "-silent", "RV.Props.%s" % self.pid], cwd=COQ, timeout=3000)
+        open(os.path.join(self.work, "coqchk.log"), "w").write(out)
+        m = re.search(r"\* Axioms:(.*?)\n\s*\n\* Constants/Inductives relying on type-in-type:(.*?)\n\s*\n"
+                      r"\* Constants/Inductives relying on unsafe \(co\)fixpoints:(.*?)\n\s*\n"
+                      r"\* Inductives whose positivity is assumed:(.*?)\n", out, re.S)
+        summary = [x.strip() for x in m.groups()] if m else None
+        self.ev["coqchk"] = {"cmd": "coqchk -Q coq RV -o -silent RV.Props.%s" % self.pid, "wall_s": round(dt, 1), "rc": rc,
+                             "axioms": summary[0] if summary else None, "type_in_type": summary[1] if summary else None,
+                             "unsafe_fixpoints": summary[2] if summary else None, "assumed_positivity": summary[3] if summary else None}
+        if rc != 0 or summary is None or any(x != "<none>" for x in summary):
+            ax = summary[0] if summary else ""
+            names = [a.strip() for a in ax.split("\n") if a.strip() and a.strip() != "<none>"]
+            if rc != 0 or summary is None or summary[1:] != ["<none>"] * 3 or not all(n.split()[0] in ALLOWED_AXIOMS for n in names):
+                self.broken.append({"kind": "coqchk", "item": "RV.Props.%s" % self.pid, "detail": out[-1200:]})
+
     # ------------------------------------------------------------------ 4/5. harness
     def build_harness(self):
         self.harness_ok = False
@@ -443,6 +462,7 @@ class Check:
         self.translate()
         self.build_proofs()
         self.audit()
+        self.coqchk()
         self.build_harness()
         self.run_harness()
         self.run_model()
